@@ -862,9 +862,9 @@ func execCase(c *core.Ctx, cs Case, emit bool) {
 var listPrefix = []Op{
 	{K: "New"}, {K: "NewInit"},
 	{K: "PushBack", A: 0, B: 10}, {K: "PushBack", A: 0, B: 11}, // h0 h1 live in list 0
-	{K: "PushBack", A: 1, B: 12},                               // h2 live in list 1
-	{K: "Elem", A: 13},                                         // h3 zero Element
-	{K: "PushFront", A: 0, B: 14}, {K: "Remove", A: 0, B: 4},   // h4 removed
+	{K: "PushBack", A: 1, B: 12},                             // h2 live in list 1
+	{K: "Elem", A: 13},                                       // h3 zero Element
+	{K: "PushFront", A: 0, B: 14}, {K: "Remove", A: 0, B: 4}, // h4 removed
 }
 
 // every operation over 2 lists and handle indices 0..nh (nh = nil)
@@ -912,11 +912,27 @@ func ringAlphabet(nh int) []Op {
 	return al
 }
 
+// regression cases that run on every check
+var fixedCases = []Case{
+	// other.Len() exceeds what is reachable from other.Front()/Back() (Init of a non-empty list, then
+	// inserts next to its stale element): PushBackList / PushFrontList copy the sentinel, run off the
+	// chain and panic after having inserted; the partial effect must be kept
+	{"list", []Op{{K: "NewInit"}, {K: "NewInit"}, {K: "PushBack", A: 1, B: 10}, {K: "Init", A: 1},
+		{K: "InsertAfter", A: 1, B: 20, C: 0}, {K: "InsertAfter", A: 1, B: 21, C: 0},
+		{K: "PushBackList", A: 0, B: 1}, {K: "PushFrontList", A: 0, B: 1}, {K: "PushBack", A: 0, B: 30},
+		{K: "PushBackList", A: 1, B: 1}, {K: "PushFrontList", A: 1, B: 1}}},
+	// the history of the thorough run that first showed it
+	{"list", []Op{{K: "New", A: 0, B: 0, C: 0}, {K: "NewInit", A: 0, B: 0, C: 0}, {K: "InsertBefore", A: 1, B: 101, C: 0}, {K: "InsertBefore", A: 0, B: 102, C: 0}, {K: "PushBack", A: 1, B: 103, C: 0}, {K: "InsertBefore", A: 1, B: 104, C: 0}, {K: "PushBack", A: 0, B: 105, C: 0}, {K: "MoveToFront", A: 1, B: 0, C: 0}, {K: "MoveBefore", A: 1, B: 0, C: 0}, {K: "InsertBefore", A: 0, B: 108, C: 0}, {K: "InsertBefore", A: 0, B: 109, C: 2}, {K: "PushFrontList", A: 0, B: 0, C: 0}, {K: "Prev", A: 1, B: 0, C: 0}, {K: "PushBackList", A: 1, B: 1, C: 0}, {K: "PushFront", A: 1, B: 113, C: 0}, {K: "Prev", A: 3, B: 0, C: 0}, {K: "PushBack", A: 0, B: 115, C: 0}, {K: "PushFront", A: 0, B: 116, C: 0}, {K: "Init", A: 1, B: 0, C: 0}, {K: "Remove", A: 0, B: 0, C: 0}, {K: "Front", A: 0, B: 0, C: 0}, {K: "InsertAfter", A: 1, B: 120, C: 4}, {K: "InsertBefore", A: 1, B: 121, C: 1}, {K: "PushFrontList", A: 0, B: 0, C: 0}, {K: "PushBack", A: 0, B: 123, C: 0}, {K: "PushFrontList", A: 0, B: 1, C: 0}, {K: "PushBack", A: 1, B: 125, C: 0}, {K: "PushBack", A: 1, B: 126, C: 0}, {K: "PushBack", A: 0, B: 127, C: 0}, {K: "PushBack", A: 1, B: 128, C: 0}}},
+}
+
 func cat(p []Op, more ...Op) []Op { return append(append([]Op{}, p...), more...) }
 
 func run(c *core.Ctx) {
 	// exhaustive small scope: every operation, and every pair of operations, after a prefix that
 	// provides live, foreign, removed, zero-Element and nil handles (rings: two rings, a zero Ring, nil)
+	for _, cs := range fixedCases {
+		execCase(c, cs, true)
+	}
 	la, ra := listAlphabet(5), ringAlphabet(4)
 	every := c.N(24, 2, 1) // of the pairs, every n-th goes to the model as well
 	k := 0
